@@ -339,23 +339,33 @@ Fixpoint run (lg pedantic : bool) (ids : list Z) (arrivals : list emitted) (st :
   end.
 
 (* ---------- internal/metric.go ---------- *)
-Fixpoint values_lt (a b : list label) : option bool :=   (* the loop over label values *)
+(* one step of the loop over the label pairs: names first, then values; None = this position does not decide *)
+Definition elt_lt (p q : label) : option bool :=
+  if negb (str_eqb (fst p) (fst q)) then Some (str_ltb (fst p) (fst q))
+  else if negb (str_eqb (snd p) (snd q)) then Some (str_ltb (snd p) (snd q))
+  else None.
+
+Fixpoint labels_lt (a b : list label) : option bool :=   (* the loop over the label pairs *)
   match a, b with
-  | (_, va) :: a', (_, vb) :: b' => if str_eqb va vb then values_lt a' b' else Some (str_ltb va vb)
+  | p :: a', q :: b' => match elt_lt p q with Some r => Some r | None => labels_lt a' b' end
   | _, _ => None
+  end.
+
+(* the timestamp tie-break: missing timestamps last *)
+Definition ts_lt (a b : option Z) : bool :=
+  match a, b with
+  | None, _ => false
+  | Some _, None => true
+  | Some x, Some y => x <? y
   end.
 
 (* MetricSorter.Less *)
 Definition metric_lt (a b : dmetric) : bool :=
   if negb (Nat.eqb (length (d_labels a)) (length (d_labels b)))
   then Nat.ltb (length (d_labels a)) (length (d_labels b))
-  else match values_lt (d_labels a) (d_labels b) with
+  else match labels_lt (d_labels a) (d_labels b) with
        | Some r => r
-       | None => match d_ts a, d_ts b with
-                 | None, _ => false
-                 | Some _, None => true
-                 | Some x, Some y => x <? y
-                 end
+       | None => ts_lt (d_ts a) (d_ts b)
        end.
 
 Definition fam_lt (a b : family) : bool := str_ltb (f_name a) (f_name b).
@@ -496,6 +506,17 @@ Definition valid_result (lg : bool) (fs : list family) : bool :=
   forallb (fun f => forallb (metric_ok lg (f_type f)) (f_metrics f)) fs &&
   distinct series_eqb (map series_of (all_metrics fs)) &&
   no_suffix_collisions fs.
+
+(* model.IsValidMetricName: non-empty and, legacy scheme, [a-zA-Z_:][a-zA-Z0-9_:]*, UTF-8 scheme, valid UTF-8 *)
+Definition metric_name_ok (lg : bool) (n : str) : bool :=
+  match n with
+  | [] => false
+  | c :: r => if lg then (is_alpha_us c || (c =? 58)) && forallb (fun b => is_alpha_us b || is_digit b || (b =? 58)) r
+              else utf8_valid n
+  end.
+
+(* every family carries a valid metric name (otherwise the encodings are not parseable) *)
+Definition family_names_ok (lg : bool) (fs : list family) : bool := forallb (fun f => metric_name_ok lg (f_name f)) fs.
 
 (* final normalisation: no empty family is returned *)
 Definition no_empty_family (fs : list family) : bool := forallb nonempty fs.
